@@ -352,9 +352,27 @@ Definition c03_ok (c : c03case) : bool :=
 
 Definition check_c03 (c : c03case) : N := code (corr_ok (c03_c c)) (c03_ok c).
 
+(* ---------- C18 under concurrency: totals at quiescence against the results the callers saw ---------- *)
+Record c18conc := mkC18C {
+  k_stats : list Z;      (* write, delete, hit, miss, expired as reported to the stats tracker *)
+  k_seen : list Z;       (* writes, successful deletes, hits, misses, expired reads as seen by callers *)
+  k_expire_all : bool; k_delete_all : bool
+}.
+
+Definition check_c18c (c : c18conc) : N :=
+  match k_stats c, k_seen c with
+  | [w; d; h; m; x], [w'; d'; h'; m'; x'] =>
+      if (w =? w') && (h =? h') && (m =? m')
+         && (if k_delete_all c then d' <=? d else d =? d')
+         && (if k_expire_all c then x' <=? x else x =? x')
+      then 0%N else 2%N
+  | _, _ => 2%N
+  end.
+
 Inductive c18case :=
 | C18B (fc : flavour * bcase)
-| C18F (c : fcase).
+| C18F (c : fcase)
+| C18C (k : c18conc).
 
 Definition check_c18 (c : c18case) : N :=
   match c with
@@ -362,6 +380,7 @@ Definition check_c18 (c : c18case) : N :=
       let p := c18b_ok fc.2 in
       if c18b_model fc.2 then (if p then 0 else 2)%N else (if p then 1 else 2)%N
   | C18F c => code (corr_ok c) (C18F_obs c)
+  | C18C k => check_c18c k
   end.
 
 (* ---------- C13 ---------- *)
@@ -558,3 +577,32 @@ Definition check_c15 (c : c15case) : N :=
 (* ---------- C16 (dynamic part) ---------- *)
 Inductive c16case := C16Pair (reports : N).
 Definition check_c16 (c : c16case) : N := match c with C16Pair n => if (n =? 0)%N then 0%N else 2%N end.
+
+(* ---------- C08: the linearization found by the search, re-checked against BackendConc.sspec ---------- *)
+From Cache Require Import BackendConc.
+
+Record c08op := mkOp8 { o_call : Z; o_ret : Z; o_op : sop; o_res : sres }.
+Record c08case := mkC08 { c08_found : bool; c08_ops : list c08op }.
+
+(* all slot contents the specification allows after the operations, the eviction choice unknown *)
+Definition c08_next (ss : list (option sent)) (x : c08op) : list (option sent) :=
+  remove_dups (flat_map (fun s =>
+    flat_map (fun ch => let '(s', r) := sspec s (o_op x) ch in if decide (r = o_res x) then [s'] else [])
+             (match o_op x with SEvict _ => [false; true] | _ => [false] end)) ss).
+
+Fixpoint c08_legal (ss : list (option sent)) (l : list c08op) : bool :=
+  match l with
+  | [] => negb (bool_decide (ss = []))
+  | x :: r => c08_legal (c08_next ss x) r
+  end.
+
+(* the order respects real time: nothing is placed before an operation that had returned before it was called *)
+Fixpoint c08_realtime (l : list c08op) : bool :=
+  match l with
+  | [] => true
+  | x :: r => forallb (fun y => negb (o_ret y <? o_call x)) r && c08_realtime r
+  end.
+
+Definition check_c08 (c : c08case) : N :=
+  if c08_found c && c08_legal [None] (c08_ops c) && c08_realtime (c08_ops c) then 0%N else 2%N.
+
